@@ -48,6 +48,9 @@ type Cache struct {
 	DNSAutoAllocate bool
 	// AllowAny indicates if the proxy should allow all outbound traffic or only known registries
 	AllowAny bool
+	// IPMode is the IP family support of the proxy: the service addresses that become virtual host
+	// domains are filtered by it (Service.GetAllAddressesForProxy)
+	IPMode model.IPMode
 
 	ListenerPort     int
 	Services         []*model.Service
@@ -138,6 +141,8 @@ func (r *Cache) Key() any {
 	h.WriteString(strconv.FormatBool(r.DNSAutoAllocate))
 	h.Write(Separator)
 	h.WriteString(strconv.FormatBool(r.AllowAny))
+	h.Write(Separator)
+	h.WriteString(strconv.Itoa(int(r.IPMode)))
 	h.Write(Separator)
 
 	for _, svc := range r.Services {
